@@ -15,7 +15,7 @@ use std::rc::Rc;
 
 pub fn pair_sweeps(tier: Tier) -> Vec<Sweep> {
     let progs = sem::typed_programs(sem::typed_size(tier));
-    let per_type = tier.pick(260, 800);
+    let per_type = tier.pick(420, 1000);
     let mut out = vec![];
     for goal in crate::enumerate::typed::goals() {
         let terms: Vec<(String, M)> = progs
